@@ -97,7 +97,11 @@ func (e *endpoint) RoundTrip(req *http.Request) (*http.Response, error) {
 		ContentLength: int64(len(payload)), Request: req, Proto: "HTTP/1.1", ProtoMajor: 1, ProtoMinor: 1}, nil
 }
 
-func (e *endpoint) set(mode string, hold time.Duration) { e.mu.Lock(); e.mode, e.hold = mode, hold; e.mu.Unlock() }
+func (e *endpoint) set(mode string, hold time.Duration) {
+	e.mu.Lock()
+	e.mode, e.hold = mode, hold
+	e.mu.Unlock()
+}
 func (e *endpoint) snapshot() []s3req {
 	e.mu.Lock()
 	defer e.mu.Unlock()
